@@ -538,6 +538,8 @@ fn exec_step(ex: &mut Exec, s: &Step) -> Out {
 struct Fz<'a> {
     rng: SplitMix64,
     ex: Exec<'a>,
+    /// handles of the last few steps: a later step reuses them with probability 1/3 (failed calls are followed up)
+    recent: Vec<usize>,
 }
 
 const DOCS: &[(&str, &str)] = &[
@@ -551,6 +553,8 @@ const DOCS: &[(&str, &str)] = &[
     ("dups", "<AR-PACKAGES><AR-PACKAGE><SHORT-NAME>D</SHORT-NAME><ELEMENTS><SYSTEM-SIGNAL><SHORT-NAME>S</SHORT-NAME></SYSTEM-SIGNAL><SYSTEM-SIGNAL><SHORT-NAME>S</SHORT-NAME></SYSTEM-SIGNAL><SYSTEM-SIGNAL><DYNAMIC-LENGTH>true</DYNAMIC-LENGTH><SHORT-NAME>T</SHORT-NAME></SYSTEM-SIGNAL><SYSTEM-SIGNAL><SHORT-NAME>U</SHORT-NAME><SHORT-NAME>V</SHORT-NAME></SYSTEM-SIGNAL></ELEMENTS></AR-PACKAGE><AR-PACKAGE><SHORT-NAME>D</SHORT-NAME></AR-PACKAGE></AR-PACKAGES>"),
     // only valid in new versions below an old header: FILE-INFO-COMMENT, adaptive elements
     ("foreign", "<FILE-INFO-COMMENT><SDGS/></FILE-INFO-COMMENT><AR-PACKAGES><AR-PACKAGE><SHORT-NAME>F</SHORT-NAME><ELEMENTS><ADAPTIVE-APPLICATION-SW-COMPONENT-TYPE><SHORT-NAME>Ad</SHORT-NAME></ADAPTIVE-APPLICATION-SW-COMPONENT-TYPE><MACHINE><SHORT-NAME>Ma</SHORT-NAME></MACHINE></ELEMENTS></AR-PACKAGE></AR-PACKAGES>"),
+    // invalid SHORT-NAMEs (kept by a lenient load), empty references next to their possible targets
+    ("badnames", "<AR-PACKAGES><AR-PACKAGE><SHORT-NAME>a-b</SHORT-NAME><ELEMENTS><SYSTEM-SIGNAL><SHORT-NAME>S</SHORT-NAME></SYSTEM-SIGNAL><SYSTEM-SIGNAL><SHORT-NAME>1x</SHORT-NAME></SYSTEM-SIGNAL><I-SIGNAL><SHORT-NAME>I</SHORT-NAME><SYSTEM-SIGNAL-REF DEST=\"SYSTEM-SIGNAL\"/></I-SIGNAL><I-SIGNAL><SHORT-NAME>J J</SHORT-NAME><SYSTEM-SIGNAL-REF DEST=\"SYSTEM-SIGNAL\">/a-b/S</SYSTEM-SIGNAL-REF></I-SIGNAL></ELEMENTS></AR-PACKAGE><AR-PACKAGE><SHORT-NAME>ok</SHORT-NAME><ELEMENTS><I-SIGNAL><SHORT-NAME>K</SHORT-NAME><SYSTEM-SIGNAL-REF DEST=\"SYSTEM-SIGNAL\"/></I-SIGNAL></ELEMENTS></AR-PACKAGE></AR-PACKAGES>"),
     ("empty", ""),
 ];
 
@@ -566,7 +570,30 @@ fn wrap_doc(body: &str, ver: AutosarVersion) -> Vec<u8> {
 impl<'a> Fz<'a> {
     fn ph(&mut self) -> usize {
         let n = self.ex.handles.len().max(1);
+        if !self.recent.is_empty() && self.rng.below(3) == 0 {
+            let k = self.recent[self.rng.below(self.recent.len() as u64) as usize];
+            if k < n {
+                return k;
+            }
+        }
         self.rng.below(n as u64) as usize
+    }
+    fn note(&mut self, s: &Step) {
+        let l = s.line();
+        let w: Vec<&str> = l.split_whitespace().collect();
+        if w[0] == "OP" {
+            for x in w.iter().skip(2).take(2) {
+                if let Ok(k) = x.parse::<usize>() {
+                    if k < self.ex.handles.len() {
+                        self.recent.push(k);
+                    }
+                }
+            }
+        }
+        let n = self.recent.len();
+        if n > 6 {
+            self.recent.drain(0..n - 6);
+        }
     }
     /// a handle satisfying `f` (any handle when there is none, and in one of five cases anyway)
     fn pw(&mut self, f: impl Fn(&Element) -> bool) -> usize {
@@ -974,9 +1001,9 @@ fn elidx(names: &Names, s: &str) -> u16 {
 /// the case families of the fuzzer
 fn case_job(kind: u64, seed: u64, tier: String, base: Vec<Op>) -> impl FnOnce(&Names, &mut dyn FnMut(&mut Exec, &Step) -> bool) + Send + 'static {
     move |names, emit| {
-        let mut fz = Fz { rng: SplitMix64(seed), ex: Exec::new(names) };
+        let mut fz = Fz { rng: SplitMix64(seed), ex: Exec::new(names), recent: vec![] };
         let thorough = tier == "thorough";
-        let nbat = if thorough { 160 } else { 70 };
+        let nbat = if kind == 5 { 25 } else if thorough { 160 } else { 70 };
         macro_rules! go {
             ($s:expr) => {{
                 let s = $s;
@@ -1028,6 +1055,93 @@ fn case_job(kind: u64, seed: u64, tier: String, base: Vec<Op>) -> impl FnOnce(&N
                     go!(s);
                 }
             }
+            5 => {
+                // small scope, exhaustive: one hand-written document, then whole sweeps of one operation kind over every
+                // handle (pair): a call that fails half-way is always followed by the calls that trip over what it left
+                go!(Step::O(Op::NewModel));
+                let d = fz.rng.below(DOCS.len() as u64 - 1) as usize;
+                let ver = version_n(*fz.rng.pick(&[20usize, 20, 17, 11, 0])).unwrap_or(AutosarVersion::LATEST);
+                go!(Step::O(Op::Load(0, wrap_doc(DOCS[d].1, ver), b"d.arxml".to_vec(), false)));
+                // every sweep kind once, in a random order
+                let mut order: Vec<u64> = (0..8).collect();
+                for i in (1..order.len()).rev() {
+                    let j = fz.rng.below(i as u64 + 1) as usize;
+                    order.swap(i, j);
+                }
+                for kind in order {
+                    let nh = fz.ex.handles.len().min(40);
+                    let mut k = 0u64;
+                    match kind {
+                        0 | 1 | 2 => {
+                            // pairs (destination, element) where the element's kind is valid in the destination
+                            for a in 0..nh {
+                                let valid: Vec<ElementName> = guard(|| fz.ex.handles[a].list_valid_sub_elements()).unwrap_or_default().iter().map(|v| v.element_name).collect();
+                                if valid.is_empty() {
+                                    continue;
+                                }
+                                for b in 0..nh {
+                                    if a != b && valid.contains(&fz.ex.handles[b].element_name()) {
+                                        k += 1;
+                                        let p = fz.pos_for(a);
+                                        go!(Step::O(match (kind, k % 2) {
+                                            (0, _) => Op::Move(a, b),
+                                            (1, 0) => Op::MoveAt(a, b, p),
+                                            (1, _) => Op::MoveAt(a, b, 0),
+                                            (_, 0) => Op::Copy(a, b),
+                                            (_, _) => Op::CopyAt(a, b, p),
+                                        }));
+                                    }
+                                }
+                            }
+                        }
+                        3 => {
+                            for a in 0..nh {
+                                if fz.ex.handles[a].is_reference() {
+                                    for b in 0..nh {
+                                        if fz.ex.handles[b].is_identifiable() {
+                                            go!(Step::O(Op::SetRefTarget(a, b)));
+                                        }
+                                    }
+                                }
+                            }
+                        }
+                        4 => {
+                            for a in 0..nh {
+                                if fz.ex.handles[a].is_identifiable() {
+                                    k += 1;
+                                    go!(Step::O(Op::SetItemName(a, format!("r{}", k).into_bytes())));
+                                }
+                            }
+                        }
+                        5 => {
+                            for a in 0..nh {
+                                let kids: Vec<usize> = fz.ex.handles[a].sub_elements().filter_map(|s| fz.ex.hidx.get(&s).copied()).collect();
+                                if let Some(c) = kids.last() {
+                                    go!(Step::O(Op::Remove(a, *c)));
+                                }
+                            }
+                        }
+                        6 => {
+                            for a in 0..nh {
+                                go!(Step::O(Op::Sort(a)));
+                                go!(Step::O(Op::SerializeElem(a)));
+                            }
+                        }
+                        _ => {
+                            for a in 0..nh {
+                                let spec = fz.ex.handles[a].element_type();
+                                if spec.chardata_spec().is_some() {
+                                    let v = fz.value(spec.chardata_spec());
+                                    go!(Step::O(Op::SetCData(a, v)));
+                                    if fz.rng.below(3) == 0 {
+                                        go!(Step::O(Op::RemoveCData(a)));
+                                    }
+                                }
+                            }
+                        }
+                    }
+                }
+            }
             _ => {
                 // grown, serialized, re-loaded leniently under an older schema version into a fresh and into the same model
                 go!(Step::O(Op::NewModel));
@@ -1054,6 +1168,7 @@ fn case_job(kind: u64, seed: u64, tier: String, base: Vec<Op>) -> impl FnOnce(&N
         // ---- the battery
         for _ in 0..nbat {
             let s = fz.battery_step();
+            fz.note(&s);
             go!(s);
         }
         // read-only sweep over every handle, model and file of the final state
@@ -1109,7 +1224,7 @@ fn fuzz_main(args: &[String]) {
             let s = &base_scripts[((k / 3) as usize) % base_scripts.len()];
             (0u64, s.2.clone())
         } else {
-            (1 + (k % 4), vec![])
+            (1 + (k % 5), vec![])
         };
         *kinds.entry(kind).or_insert(0) += 1;
         let (_lines, finds, n, okerr) = run_case(&dump, case_job(kind, cseed, tier.clone(), base), 3000);
